@@ -54,7 +54,7 @@ DiffMismatches(w1, w2, dobs) ==
           bad == {pq \in pts : wrong(pq)}
           stray == {i \in DOMAIN es : es[i].src.t \notin {"w", "ip", "ing"} \/ es[i].dst.t \notin {"w", "ip"}
                                       \/ (es[i].src.t = "ip" /\ ~es[i].src.aligned) \/ (es[i].dst.t = "ip" /\ ~es[i].dst.aligned)}
-      IN {<<"C04-point", pq[1][2], pq[2][2], "expected", DType(DConn(w1, pq[1], pq[2]), DConn(w2, pq[1], pq[2])),
+      IN {<<"C04-point", ToString(pq[1][2]), ToString(pq[2][2]), "expected", DType(DConn(w1, pq[1], pq[2]), DConn(w2, pq[1], pq[2])),
             DConn(w1, pq[1], pq[2]), DConn(w2, pq[1], pq[2]),
             "covering-entries", {<<es[i].type, es[i].src.key, es[i].dst.key, es[i].newSrc, es[i].newDst>> : i \in cover(pq)}>> : pq \in bad}
          \cup {<<"C04-stray-entry", es[i].src.key, es[i].dst.key>> : i \in stray}
